@@ -38,7 +38,7 @@ GEN = ["gen_refine_consts", "gen_refine_kernels"]
 EXTRACT_FILES = ["X06"]
 DRIVERS = ["x06"]
 RULE = ("a case is one pixel of one call of subpixel_refinement (or approximate_subpixel_refinement): a cost row whose "
-        "triple around the pixel's sample is drawn from 13 classes (strict extremum, flat, equal-left/right, symmetric, "
+        "triple around the pixel's sample is drawn from 14 classes (float32 costs around 2^24 with near ties, strict extremum, flat, equal-left/right, symmetric, "
         "NaN at 0/1/2/both, monotone up/down, centre worst, random), a disparity from 7 classes (inside sample, on "
         "dmin, on dmax, off-grid k/8, off-grid within one sample of dmin / of dmax, invalid_disparity), a mask from "
         "valid-with-information-bits (incl. bit 3 from an earlier step) or every invalid bit; method in {vfit, "
@@ -85,7 +85,7 @@ INFO_BITS = [2, 4, 5, 10, 11]
 STOPPED = 8
 INVALID = 0b01111000011
 TRIPLES = ["strict", "strict", "strict", "flat", "eq_left", "eq_right", "sym", "nan0", "nan2", "nan1", "nan02",
-           "mono_up", "mono_down", "worst", "random", "random"]
+           "mono_up", "mono_down", "worst", "random", "random", "large", "large"]
 DISPS = ["inside", "inside", "inside", "inside", "dmin", "dmax", "offgrid", "offgrid", "near_dmin", "near_dmax",
          "invalid", "invalid"]
 
@@ -121,6 +121,10 @@ def gen_triple(rng, cls):
         return [lo + a + b, lo + a, lo]
     if cls == "worst":
         return [lo, lo + a, lo + rng.randrange(0, a + 1)]
+    if cls == "large":
+        # float32 costs at the level of ssd on 12..16-bit radiometry (2^24: consecutive float32 are 2 apart), near ties
+        lo = 2 ** 24 + 2 * rng.randrange(0, 8)
+        return [lo + 2 * rng.randrange(0, 4), lo, lo + 2 * rng.randrange(0, 4)]
     return [rng.randrange(0, 60), rng.randrange(0, 60), rng.randrange(0, 60)]
 
 
@@ -164,7 +168,7 @@ def gen_pixel(rng, measure, s, dmin, dmax, dcls=None, tcls=None):
             mask |= 1 << rng.choice(INVALID_BITS)
     tri = gen_triple(rng, tcls)
     if measure == "max":
-        tri = [None if c is None else 60 - c for c in tri]
+        tri = [None if c is None else (2 ** 25 if tcls == "large" else 60) - c for c in tri]
     for off, c in zip((-1, 0, 1), tri):
         i = k + off
         if i == -1:
